@@ -6,6 +6,7 @@ package cache
 // model; every produced list must also be well-formed for read (no panic in [32]byte(dec)). BOUNDED.
 
 import (
+	"os"
 	"fmt"
 	"sort"
 	"testing"
@@ -63,7 +64,11 @@ func TestBoundedListCodec(t *testing.T) {
 		}
 	}
 	frontier := []state{{raw: nil, model: nil}}
-	for depth := 0; depth < 5; depth++ {
+	maxDepth := 5 // quick tier; the thorough tier enumerates every add/remove sequence up to length 7
+	if os.Getenv("VERIF_TIER") == "thorough" {
+		maxDepth = 7
+	}
+	for depth := 0; depth < maxDepth; depth++ {
 		var next []state
 		for _, s := range frontier {
 			for i := range hs {
